@@ -95,16 +95,14 @@ def run(ck):
     id_filters(ck, "C17.3", "C17.1")
     reader_is_stateless(ck, "C17.7")
     cr = p.find_class("CmapReader")
-    parse = cr.methods.get(mangle("__parseCmapRowsGroup", "CmapReader"))
-    read = cr.methods.get(mangle("__read", "CmapReader"))
+    from ..rules.common import cmap_reader_methods
+    read, parse = cmap_reader_methods(ck)
     if parse is None or read is None:
         raise AnalysisError("CmapReader.__read / __parseCmapRowsGroup not found")
     group = V(parse.call_params()[0].name)
     used_cols = set()
-    for pa in explore(ck, parse):
-        if pa.outcome != "return":
-            continue
-        v = pa.value
+    from ..rules.common import merged_return
+    for v, pa in [merged_return(ck, parse)]:
         w = where(parse, pa.node)
         news = [x for x in T.subterms(v) if x[0] == "new" and x[1].endswith(":OpticalMap")]
         if not news:
@@ -175,24 +173,29 @@ def run(ck):
     ck.judge(not missing, "C17.3", short(read) + ":columns", read.where, "every column the reader uses is requested from readFile",
              found=f"missing {missing}" if missing else f"requested {req}, used {sorted(used_cols)}")
     # None results dropped, empty frame -> []
-    for pa in explore(ck, read, unroll=(0, 1)):
-        if pa.outcome != "return":
-            continue
-        v = pa.value
+    # every return path: either the explicit `[]` for an empty frame, or the parsed maps with the None entries dropped
+    rpaths = [pa for pa in explore(ck, read, unroll=(0, 1)) if pa.outcome == "return"]
+    seen_v = []
+    n_full = 0
+    for pa in rpaths:
         w = where(read, pa.node)
-        if v[0] == "select":
-            empty_guard = v[1][0] == "attr" and v[1][2] == "empty"
-            ck.judge(empty_guard and v[2] == ("list", ()), "C17.3", short(read) + ":empty-file", w, "an empty frame gives an empty list",
-                     found=T.show(v)[:160])
-            notnull = any(x[0] == "mcall" and x[2] in ("notnull", "notna", "dropna") for x in T.subterms(v[3]))
-            ck.judge(notnull, "C17.3", short(read) + ":drop-none", w, "molecules without labels (None) are dropped before returning",
-                     found=T.show(v[3])[:160], required="opticalMaps[opticalMaps.notnull()]")
-        else:
+        for v, extra in [(pa.value, [])] if pa.value[0] != "select" else [(pa.value[2], [(pa.value[1], True)]),
+                                                                           (pa.value[3], [(pa.value[1], False)])]:
+            if v in seen_v:
+                continue
+            seen_v.append(v)
+            if v == ("list", ()):
+                conds = [(c, tv) for c, tv, _ in pa.state.assumptions] + extra
+                empty_guard = any(tv and c[0] == "attr" and c[2] == "empty" for c, tv in conds)
+                ck.judge(empty_guard, "C17.3", short(read) + ":empty-file", w, "an empty frame gives an empty list",
+                         found="; ".join(("" if tv else "not ") + T.show(c)[:60] for c, tv in conds))
+                continue
+            n_full += 1
             notnull = any(x[0] == "mcall" and x[2] in ("notnull", "notna", "dropna") for x in T.subterms(v)) or \
                 any(x[0] == "comp" and x[3][0][1] for x in T.subterms(v))
             ck.judge(notnull, "C17.3", short(read) + ":drop-none", w, "molecules without labels (None) are dropped before returning",
-                     found=T.show(v)[:160])
-        break
+                     found=T.show(v)[:160], required="opticalMaps[opticalMaps.notnull()]")
+    ck.floor("C17.3 return values of the CMAP reader carrying maps", n_full, 1)
     # ---- C17.4
     rm = p.get_function("src.program:Program.__readMaps")
     stores = {}
